@@ -206,7 +206,9 @@ func c05family(thorough bool, add func(cfg *Config, bound int, maxExec int64, or
 	progs = append(progs, variants(func(m func(StepCfg) StepCfg) []StepCfg { return []StepCfg{m(st("a"))} })...)
 	progs = append(progs, variants(func(m func(StepCfg) StepCfg) []StepCfg { return []StepCfg{m(st("a")), st("b", "a")} })...)
 	progs = append(progs, variants(func(m func(StepCfg) StepCfg) []StepCfg { return []StepCfg{m(st("a")), m(st("b"))} })...)
-	progs = append(progs, variants(func(m func(StepCfg) StepCfg) []StepCfg { return []StepCfg{retrying(st("a"), 1, 1, 2000), m(st("b", "a"))} })...)
+	progs = append(progs, variants(func(m func(StepCfg) StepCfg) []StepCfg {
+		return []StepCfg{retrying(st("a"), 1, 1, 2000), m(st("b", "a"))}
+	})...)
 	progs = append(progs, [][]StepCfg{
 		{sig(hang(st("a")), "SIGINT")},
 		{sig(ign(st("a")), "SIGINT")},
